@@ -1,5 +1,7 @@
 Require Import FastZ.
-From Dashu Require Import Base.Prelude Float.RoundSpec Float.Contract Float.Model Float.AddModel.
+From Dashu Require Import Base.Prelude Float.RoundSpec Float.Contract Float.Model Float.AddModel Float.DivMulModel.
 Extraction "model.ml" check_contract dlen x_exp cmp_kx spec_round round_rat_at
   repr_round ctx_mul ctx_sqr ctx_cubic repr_div round_fract round_ratio
-  ctx_add_x ctx_sub_x ctx_add_x1 ctx_sub_x1 add_val_val_x add_val_ref_x add_ref_val_x add_ref_ref_x ctx_sqrt add_path approx_val.
+  ctx_add_x ctx_sub_x ctx_add_x1 ctx_sub_x1 add_val_val_x add_val_ref_x add_ref_val_x add_ref_ref_x ctx_sqrt add_path approx_val
+  ctx_div_x ctx_div_x1 ctx_inv fbig_mul fbig_div mul_float_prim mul_prim_float div_float_prim div_prim_float
+  prim_prec ctx_max round_fract_sharp.
